@@ -773,7 +773,11 @@ def run_c15_line(line: str) -> str:
                 (c.add if info.kinds[f] == "set" else c.append)(objs[int(op[3])])
             elif kind == "assign":
                 vals = [objs[int(x)] for x in op[3:]]
-                setattr(src, name, set(vals) if info.kinds[f] == "set" else list(vals))
+                # the ORDER in which the setter walks the assigned elements decides which of them arrive by assertion
+                # and which by inference (and so which survive a later assignment): a set-valued field is given an
+                # ordered iterable, because the iteration order of a Python set of the repository's classes (hashed by
+                # name) differs from process to process
+                setattr(src, name, tuple(vals) if info.kinds[f] == "set" else list(vals))
             elif kind == "assign1":
                 setattr(src, name, objs[int(op[3])])  # a bare element assigned to a container field
             else:
